@@ -17,6 +17,10 @@ const (
 	futureMin = 4100000000
 )
 
+// fractions of a second whose RFC 3339 spellings have different lengths: as TEXT (the index keys)
+// "…:20Z" > "…:20.5Z" > "…:20.50001Z", the opposite of their order in time
+var fracPool = []int64{0, 500000000, 500010000, 250000000, 123456789, 100000000, 999999999, 1, 50000000, 500000001}
+
 var attrPool = []string{"tag", "title", "camliContent", "a b|c%+é/=&?", "latitude", "longitude"}
 var valPool = []string{"x", "y", "", "x", "é ü|%2B+&=/?#", "sha224-a794846212ff67acdd00c6b90eee492baf674d41da8a621d2e8042dd",
 	"1", "2.5", "-3", "a\tb\"c\\d", "%41", "z|z"}
@@ -45,17 +49,13 @@ func caseKey(g *gen) string {
 func (g *gen) queryAll(p int, attr string, times []int64, filters []string, vals []string) {
 	for _, t := range times {
 		for _, f := range filters {
-			for _, m := range allModes {
-				g.qAttr(m, p, attr, t, f)
-			}
-			for _, m := range corpusModes {
-				g.qVals(m, p, attr, t, f)
-			}
+			g.qAttrAll(p, attr, t, f)
+			g.qValsAll(p, attr, t, f)
+		}
+		for _, v := range vals {
+			g.qHasAll(p, attr, v, t)
 		}
 		for _, m := range corpusModes {
-			for _, v := range vals {
-				g.qHas(m, p, attr, v, t)
-			}
 			g.qVia(m, p, t, "a")
 		}
 	}
@@ -76,10 +76,14 @@ func Run(r *hk.Run) {
 		"(idx = Index.AppendClaims+sort+claimsIntfAttrValue without corpus, inc = live corpus, load = fresh index.New+KeepInMemory over the same rows); " +
 		"in a bounded share of the cases also search.Handler.Describe over each of the three indexes. " +
 		"(a) exhaustive: every sequence of ≤ L claims over {set x,set y,add x,add y,del x,del \"\"} on one attribute × every arrival order (L=3 quick, 4 thorough); " +
-		"(b) random histories on 1–2 permanodes, 2 signers, 6 attributes, 12 values (empty, repeated, URL-special, UTF-8), dates out of arrival order, ties (≤ 12 rows), future dates, delete/undelete chains; " +
+		"(a2) every sequence of ≤ 3 claims by two signers over {set x,add y,del x,del \"\"} on one attribute × every arrival order (thorough: + 4000 sampled sequences of 4); " +
+		"(a3) 2–6 claims inside one second with fractions of different spelled lengths (index-row text order ≠ time order) and equal dates; " +
+		"(b) random histories on 1–2 permanodes, 2 signers, 6 attributes, 12 values (empty, repeated, URL-special, UTF-8), dates out of arrival order, equal dates (any number of rows), sub-second dates, future dates, delete/undelete chains; " +
 		"(c) delete chains of depth ≤ 7 with branches; (d) malformed op lines. distinct = distinct histories up to renaming of ids and dates (order-isomorphic); non-trivial = ≥ 2 claims"
 
 	exhaustive(r)
+	twoSigners(r)
+	sameSecond(r)
 	random(r)
 	chains(r)
 	malformed(r)
@@ -128,18 +132,16 @@ func exhaustive(r *hk.Run) {
 				for _, k := range order {
 					g.claim(0, 0, seq[k].kind, "tag", seq[k].val, int64(100*(k+1)))
 				}
-				times := []int64{0, 50}
+				times := []int64{0, 50 * sec}
 				for k := range seq {
-					times = append(times, int64(100*(k+1)+50))
+					times = append(times, int64(100*(k+1)+50)*sec)
 				}
 				g.queryAll(0, "tag", times, []string{"a", "0"}, []string{"x", "y"})
 				g.qOrder("inc", 0)
 				g.qOrder("load", 0)
 				if g.desc {
 					for _, t := range times {
-						for _, m := range allModes {
-							g.qDesc(m, 0, "tag", t, 0)
-						}
+						g.qDescAll(0, "tag", t, 0)
 					}
 				}
 				if len(seq) >= 2 {
@@ -157,6 +159,148 @@ func exhaustive(r *hk.Run) {
 	}
 	rec(nil)
 	r.Res.Histogram["exhaustive-cases"] = n
+}
+
+// (a2) every sequence of ≤ 3 claims by TWO signers on one attribute × every arrival order: the
+// all-signers view pm.attr against the per-signer views, with claims arriving out of date order
+func twoSigners(r *hk.Run) {
+	type mv struct {
+		kind, val string
+		s         int
+	}
+	var alpha []mv
+	for s := 0; s < 2; s++ {
+		for _, m := range []mv{{"set", "x", 0}, {"add", "y", 0}, {"del", "x", 0}, {"del", "", 0}} {
+			m.s = s
+			alpha = append(alpha, m)
+		}
+	}
+	n := 0
+	one := func(seq []mv, order []int) {
+		r.Case(fmt.Sprintf("two-signers n=%d", len(seq)))
+		g := newGenWorld(r)
+		g.pn(0)
+		for _, k := range order {
+			g.claim(0, seq[k].s, seq[k].kind, "tag", seq[k].val, int64(100*(k+1)))
+		}
+		times := []int64{0}
+		for k := range seq {
+			times = append(times, int64(100*(k+1)+50)*sec)
+		}
+		g.queryAll(0, "tag", times, []string{"a", "0", "1"}, []string{"x", "y"})
+		if len(seq) >= 2 {
+			r.Distinct(caseKey(g))
+		}
+		n++
+	}
+	var rec func(seq []mv)
+	rec = func(seq []mv) {
+		if len(seq) > 0 {
+			for _, order := range permutations(len(seq)) {
+				one(seq, order)
+			}
+		}
+		if len(seq) == 3 {
+			return
+		}
+		for _, m := range alpha {
+			rec(append(append([]mv(nil), seq...), m))
+		}
+	}
+	rec(nil)
+	if r.Thorough() {
+		// a sample of the sequences of 4
+		for i := 0; i < 4000; i++ {
+			seq := make([]mv, 4)
+			for k := range seq {
+				seq[k] = alpha[r.R.Intn(len(alpha))]
+			}
+			ps := permutations(4)
+			one(seq, ps[r.R.Intn(len(ps))])
+		}
+	}
+	r.Res.Histogram["two-signer-cases"] = n
+}
+
+func permutations(k int) [][]int {
+	var out [][]int
+	idx := make([]int, k)
+	for i := range idx {
+		idx[i] = i
+	}
+	var pr func(i int)
+	pr = func(i int) {
+		if i == k {
+			out = append(out, append([]int(nil), idx...))
+			return
+		}
+		for j := i; j < k; j++ {
+			idx[i], idx[j] = idx[j], idx[i]
+			pr(i + 1)
+			idx[i], idx[j] = idx[j], idx[i]
+		}
+	}
+	pr(0)
+	return out
+}
+
+// (a3) claims inside ONE second, with fractions whose spellings differ in length: the order of the index
+// rows (by the text of the date) is then not the order in time, and only sorting by the parsed date
+// (corpus, location.go, describe.go) gives the documented result; also equal dates (ties by blobref)
+func sameSecond(r *hk.Run) {
+	rnd := r.R
+	N := 150
+	if r.Thorough() {
+		N = 1500
+	}
+	for i := 0; i < N; i++ {
+		r.Case("same-second")
+		g := newGenWorld(r)
+		g.desc = true
+		g.pn(0)
+		nsign := 1 + rnd.Intn(2)
+		n := 2 + rnd.Intn(5)
+		base := int64(1000+rnd.Intn(3)) * sec
+		var ds []int64
+		for k := 0; k < n; k++ {
+			d := base + fracPool[rnd.Intn(len(fracPool))]
+			if rnd.Chance(10) {
+				d += sec
+			}
+			ds = append(ds, d)
+			kind := []string{"set", "set", "add", "del"}[rnd.Intn(4)]
+			val := []string{"x", "y", "z"}[rnd.Intn(3)]
+			if kind == "del" && rnd.Chance(40) {
+				val = ""
+			}
+			g.claimNs(0, rnd.Intn(nsign), kind, "tag", val, d)
+		}
+		if rnd.Chance(25) && len(g.claims) > 0 {
+			g.delNs("c"+strconv.Itoa(g.claims[rnd.Intn(len(g.claims))].id), 0, base+fracPool[rnd.Intn(len(fracPool))])
+		}
+		ts := []int64{0, base, base + sec, base + 2*sec}
+		for k := 0; k < 3; k++ {
+			ts = append(ts, ds[rnd.Intn(len(ds))])
+		}
+		for _, t := range ts {
+			f := []string{"a", "0", "1"}[rnd.Intn(3)]
+			g.qAttrAll(0, "tag", t, f)
+			g.qValsAll(0, "tag", t, f)
+			g.qHasAll(0, "tag", "x", t)
+			g.qDescAll(0, "tag", t, rnd.Intn(nsign))
+		}
+		for _, m := range allModes {
+			g.qClaims(m, 0, "a", "")
+		}
+		g.qOrder("inc", 0)
+		g.qOrder("load", 0)
+		if len(g.claims) >= 2 {
+			r.Distinct(caseKey(g))
+		}
+		if i == 0 {
+			r.Sample(map[string]any{"kind": "same-second", "ops": g.ops[:min(len(g.ops), 8)]})
+		}
+	}
 }
 
 // (b) random histories
@@ -187,21 +331,25 @@ func random(r *hk.Run) {
 		}
 		allowTies := rnd.Chance(30)
 		n := 2 + rnd.Intn(9)
-		if r.Thorough() && !allowTies && rnd.Chance(25) {
-			n = 10 + rnd.Intn(25) // beyond pdqsort's insertion-sort cut-off: distinct dates only
+		if r.Thorough() && rnd.Chance(25) {
+			n = 10 + rnd.Intn(25) // beyond pdqsort's insertion-sort cut-off, with or without equal dates
 		}
 		future := rnd.Chance(15)
+		fractions := rnd.Chance(30) // dates inside one second, fractions of different lengths
 		used := map[int64]bool{}
 		pickDate := func() int64 {
 			for {
 				var d int64
 				switch {
 				case future && rnd.Chance(20):
-					d = futureMin + int64(rnd.Intn(40))
+					d = (futureMin + int64(rnd.Intn(40))) * sec
 				case allowTies:
-					d = 1000 + int64(rnd.Intn(6))
+					d = (1000 + int64(rnd.Intn(6))) * sec
 				default:
-					d = 1000 + int64(rnd.Intn(10*n+20))
+					d = (1000 + int64(rnd.Intn(10*n+20))) * sec
+				}
+				if fractions {
+					d = (d/sec/4*4)*sec + fracPool[rnd.Intn(len(fracPool))]
 				}
 				if allowTies || !used[d] {
 					used[d] = true
@@ -214,9 +362,6 @@ func random(r *hk.Run) {
 		deliveries := 0
 		for deliveries < n {
 			p := rnd.Intn(npn)
-			if allowTies && rows[p] >= 12 {
-				break
-			}
 			s := rnd.Intn(nsign)
 			switch {
 			case len(g.claims) > 0 && rnd.Chance(22):
@@ -225,18 +370,15 @@ func random(r *hk.Run) {
 				switch {
 				case lastDelete != nil && rnd.Chance(55):
 					tgt = "c" + strconv.Itoa(lastDelete.id)
-				case rnd.Chance(12) && rows[p] < 12:
+				case rnd.Chance(12):
 					tgt = "p" + strconv.Itoa(p)
 				default:
 					tgt = "c" + strconv.Itoa(g.claims[rnd.Intn(len(g.claims))].id)
 				}
 				if tgt[0] == 'p' {
-					if allowTies && rows[int(tgt[1]-'0')] >= 12 {
-						continue
-					}
 					rows[int(tgt[1]-'0')]++
 				}
-				if d := g.del(tgt, s, pickDate()); d != nil {
+				if d := g.delNs(tgt, s, pickDate()); d != nil {
 					lastDelete = d
 					r.Hit("gen:delete-" + tgt[:1])
 				}
@@ -250,7 +392,7 @@ func random(r *hk.Run) {
 				if kind == "del" && rnd.Chance(35) {
 					val = ""
 				}
-				if g.claim(p, s, kind, attr, val, pickDate()) != nil {
+				if g.claimNs(p, s, kind, attr, val, pickDate()) != nil {
 					rows[p]++
 				}
 			}
@@ -276,11 +418,11 @@ func (g *gen) times() []int64 {
 		ds = append(ds, c.date)
 	}
 	sort.Slice(ds, func(i, j int) bool { return ds[i] < ds[j] })
-	ts := []int64{0, 1, pastMax - 1, MaxTime}
+	ts := []int64{0, sec, (pastMax - 1) * sec, MaxTime * sec}
 	if len(ds) > 0 {
-		ts = append(ts, ds[0]-1, ds[len(ds)-1], ds[len(ds)-1]+1)
+		ts = append(ts, ds[0]-1, ds[0]-sec, ds[len(ds)-1], ds[len(ds)-1]+1, ds[len(ds)-1]+sec)
 		m := ds[len(ds)/2]
-		ts = append(ts, m, m+1, m-1)
+		ts = append(ts, m, m+1, m-1, m/sec*sec, m/sec*sec+sec)
 	}
 	return ts
 }
@@ -297,25 +439,21 @@ func (g *gen) randomQueries(npn int, attrs, vals []string, final bool) {
 		p := rnd.Intn(npn)
 		attr := attrs[rnd.Intn(len(attrs))]
 		t := ts[rnd.Intn(len(ts))]
-		if t <= 0 {
+		if t < sec {
 			t = 0
 		}
 		f := filters[rnd.Intn(len(filters))]
-		for _, m := range allModes {
-			g.qAttr(m, p, attr, t, f)
-		}
+		g.qAttrAll(p, attr, t, f)
+		g.qValsAll(p, attr, t, f)
+		g.qHasAll(p, attr, vals[rnd.Intn(len(vals))], t)
 		for _, m := range corpusModes {
-			g.qVals(m, p, attr, t, f)
-			g.qHas(m, p, attr, vals[rnd.Intn(len(vals))], t)
 			g.qVia(m, p, t, f)
 		}
 		if attr == "latitude" || attr == "longitude" {
 			g.qLocation(p, t, f)
 		}
 		if g.desc {
-			for _, m := range allModes {
-				g.qDesc(m, p, attr, t, rnd.Intn(2))
-			}
+			g.qDescAll(p, attr, t, rnd.Intn(2))
 		}
 	}
 	if final {
@@ -392,7 +530,7 @@ func chains(r *hk.Run) {
 			}
 			for _, m := range corpusModes {
 				g.qVals(m, 0, "title", 0, "a")
-				g.qVals(m, 0, "title", 1700, "0")
+				g.qVals(m, 0, "title", 1700*sec, "0")
 				g.qHas(m, 0, "title", "v1", 0)
 			}
 			tgt = "c" + strconv.Itoa(dc.id)
@@ -430,6 +568,16 @@ func malformed(r *hk.Run) {
 		"claim 2 0 0 set 746167 78 01000 " + rk,       // leading zero
 		"claim 2 0 0 set 746167 78 99999999999 " + rk, // beyond MaxTime
 		"claim 2 0 0 set 746167 78 -5 " + rk,
+		"claim 2 0 0 set 746167 78 1000. " + rk,   // empty fraction
+		"claim 2 0 0 set 746167 78 1000.50 " + rk, // trailing zero
+		"claim 2 0 0 set 746167 78 1000.0 " + rk,
+		"claim 2 0 0 set 746167 78 1000.1234567891 " + rk, // ten digits
+		"claim 2 0 0 set 746167 78 1000.5.5 " + rk,
+		"claim 2 0 0 set 746167 78 .5 " + rk,
+		"claim 2 0 0 set 746167 78 0.5 " + rk, // second 0
+		"claim 2 0 0 set 746167 78 1000.5x " + rk,
+		"claim 2 0 0 set 746167 78 9000000001 " + rk, // beyond MaxTime
+		"attr inc 0 746167 1000.50 a", "attr inc 0 746167 z.5 a", "desc inc 0 746167 1000. 0", "delete 2 c1 0 2000.10 1",
 		"claim 2 0 0 set 746167 78 1000 " + rk, // same content as claim 1: the same blob
 		"claim 2 0 0 set 746167 78 1000",       // arity
 		"claim 2 0 0 set 746167 78 1000 " + rk + " 1",
@@ -457,7 +605,11 @@ func malformed(r *hk.Run) {
 	g.claim(0, 0, "add", "tag", "aé€😀", 2000)
 	g.qVals("inc", 0, "tag", 0, "a")
 	g.qVals("load", 0, "tag", 0, "a")
-	g.qAttr("idx", 0, "tag", 2000, "a")
+	g.qAttr("idx", 0, "tag", 2000*sec, "a")
+	// fractions of a second, in their one spelling
+	g.claimNs(0, 0, "add", "tag", "f", 2000*sec+500000000)
+	g.qVals("inc", 0, "tag", 2000*sec+499999999, "a")
+	g.qVals("load", 0, "tag", 2000*sec+500000000, "a")
 	r.Hit("malformed-lines")
 }
 
